@@ -10,7 +10,8 @@ CONSTANTS MaxParams, Kinds
 ArgDescs == << <<"dec", FALSE, <<7>>, 0>>, <<"dec", FALSE, <<2,7,5>>, -2>>, <<"dec", TRUE, <<2,7,5>>, -2>>, <<"str", <<97,98>>>>, <<"bool", TRUE>>, <<"nil">>,
                <<"slice", << <<"dec", FALSE, <<1>>, 0>>, <<"dec", FALSE, <<2,5>>, -1>> >>>>, <<"slice", << <<"str", <<97>>>>, <<"str", <<98>>>> >>>>,
                <<"map", [k |-> <<"int", 1>>]>>, <<"time", 19000, 0, 0>>, <<"dec", FALSE, <<3>>, 2>>, <<"slice", <<>>>>,
-               <<"strs", << <<97>>, <<98>> >>>>, <<"ints", <<1, 2>>>> >>          \* typed Go slices []string{"a","b"}, []int{1,2}
+               <<"strs", << <<97>>, <<98>> >>>>, <<"ints", <<1, 2>>>>,             \* typed Go slices []string{"a","b"}, []int{1,2}
+               <<"slice", << <<"dec", FALSE, <<1>>, 0>>, <<"nil">>, <<"str", <<97>>>> >>>> >>      \* [1, null, 'a']
 \*              7           2.75          -2.75        'ab'       true     null     [1, 2.5]      ['a','b']     {k:1}    a time     300 (beyond int8)   []
 Rets == {"int", "int32", "int64", "float32", "float32b", "float64", "string", "error", "nil"}
 
@@ -36,7 +37,7 @@ Pool == 1..Len(ArgDescs)
 Fits(s) == IF s[3] THEN {Len(s[2]) - 1, Len(s[2]), Len(s[2]) + 1} ELSE {Len(s[2])}
 Cases(s) ==
   { <<[i \in 1..n |-> 1], sp, r>> : n \in 0..(Len(s[2]) + 2), sp \in BOOLEAN, r \in {"int"} }
-  \cup { <<[i \in 1..n |-> IF i = n THEN a ELSE 1], TRUE, "int">> : n \in 1..(Len(s[2]) + 2), a \in {7, 8, 12, 13, 14} }      \* spread of an array at every length
+  \cup { <<[i \in 1..n |-> IF i = n THEN a ELSE 1], TRUE, "int">> : n \in 1..(Len(s[2]) + 2), a \in {7, 8, 12, 13, 14, 15} }      \* spread of an array at every length
   \cup { <<as, FALSE, r>> : as \in UNION { [1..n -> Pool] : n \in Fits(s) \cap (0..3) }, r \in {"int", "error"} }
   \cup { <<as, TRUE, "int">> : as \in UNION { [1..n -> Pool] : n \in {Len(s[2])} \cap (1..2) } }
   \cup { <<[i \in 1..Len(s[2]) |-> 1], FALSE, r>> : r \in Rets }
